@@ -156,7 +156,20 @@ pub fn damaged_input(c: &CorruptCase) -> Result<(Vec<u8>, usize, Vec<String>), F
 pub const MEM_BASE: usize = 8 << 20;
 pub const MEM_FACTOR: usize = 4096;
 
+/// The library calls run on a thread with a 2 MiB stack (Rust's default for spawned
+/// threads), so that recursion proportional to the input shows up as a crash.
 pub fn read_only_check(bytes: &[u8], script: &[BOp], rep: &mut CaseReport) -> Result<bool, Fail> {
+    std::thread::scope(|scope| {
+        std::thread::Builder::new()
+            .stack_size(2 << 20)
+            .spawn_scoped(scope, || read_only_check_inner(bytes, script, rep))
+            .expect("spawn")
+            .join()
+            .unwrap_or_else(|_| Err(Fail::new("harness|thread", "checker thread panicked")))
+    })
+}
+
+fn read_only_check_inner(bytes: &[u8], script: &[BOp], rep: &mut CaseReport) -> Result<bool, Fail> {
     let mut accepted = false;
     let default_script = vec![
         BOp::Walk,
@@ -234,7 +247,49 @@ fn solo(v: &Value) -> Result<CaseReport, String> {
     run_solo(v, report)
 }
 
+/// Large valid inputs: degenerate (list-shaped) sibling trees of thousands of entries, run
+/// alone in a child process (a stack overflow would kill the process).
+fn deep_tree_inputs(ev: &mut Value) -> Option<Violation> {
+    use crate::model::{Kind, Model, Node};
+    let mut done = Vec::new();
+    for (n, shape, version) in [(3000usize, 1u8, 3u8), (20000, 1, 3), (20000, 2, 4), (6000, 2, 3)] {
+        let mut m = Model::new();
+        if let Kind::Storage { children, .. } = &mut m.root.kind {
+            // names of equal length: already in CFB order
+            for i in 0..n {
+                children.push(Node { name: format!("e{:06}", i), state: 0, kind: Kind::Stream { data: if i % 1000 == 0 { pattern(3, 0, 100) } else { Vec::new() } } });
+            }
+        }
+        let (img, _) = synthesize_opts(&m, version, &[], 0, shape);
+        let case = CorruptCase {
+            base: BaseSpec { version, pool: vec![], tree: TreeSpec { root_clsid: [0; 16], root_state: 0, root_created: 0, root_modified: 0, items: vec![] }, choices: vec![], surplus_fat: 0, lib_ops: None },
+            corrs: vec![],
+            script: vec![BOp::Walk, BOp::ListRoot, BOp::QueryPath("/e000000".into()), BOp::QueryPath(format!("/e{:06}", n - 1))],
+            raw_hex: Some(hex(&img)),
+        };
+        let dir = scratch_dir();
+        let f = dir.join(format!("deep-{}-{}.json", n, shape));
+        let v = serde_json::to_value(&case).unwrap_or(Value::Null);
+        let _ = std::fs::write(&f, serde_json::to_string(&v).unwrap_or_default());
+        let out = solo_process("C05", &f, 120);
+        let _ = std::fs::remove_file(&f);
+        let what = format!("valid image with a {}-entry {}-leaning sibling list (V{}, {} bytes)", n, if shape == 1 { "right" } else { "left" }, version, img.len());
+        match out {
+            SoloOutcome::Pass | SoloOutcome::Known(_) => done.push(what),
+            SoloOutcome::Fail(k, d) => return Some(Violation { key: k, detail: format!("{}: {}", what, d), case: serde_json::json!({"note": what}), trace: vec![] }),
+            SoloOutcome::Hang => return Some(Violation { key: "hang|deep_tree".into(), detail: format!("{}: exceeded 120 CPU-seconds", what), case: serde_json::json!({"note": what}), trace: vec![] }),
+            SoloOutcome::Abort(m) => return Some(Violation { key: format!("abort|deep_tree|{}", m), detail: format!("{}: the process was killed ({}) - stack overflow or allocation failure", what, m), case: serde_json::json!({"note": what}), trace: vec![] }),
+            SoloOutcome::Harness(m) => return Some(Violation { key: "harness|deep_tree".into(), detail: m, case: Value::Null, trace: vec![] }),
+        }
+    }
+    ev["coverage"]["deep_tree_inputs"] = serde_json::json!(done);
+    None
+}
+
 fn fuzz_extra(ctx: &Ctx, ev: &mut Value) -> Option<Violation> {
+    if let Some(v) = deep_tree_inputs(ev) {
+        return Some(v);
+    }
     crate::fuzzrun::campaign(ctx, ev, "C05", "fz_read", false, solo)
 }
 
